@@ -422,6 +422,7 @@ Proof.
   assert (KB : forall k, In k ks -> key_bits k = c).
   { intros k Hk. rewrite Forall_forall in HF. specialize (HF k Hk). destruct k; [contradiction|exact HF]. }
   assert (K0 : key_bits k0 = c) by (apply KB; rewrite EK; now left).
+  assert (I0 : is_ecc c k0) by (rewrite Forall_forall in HF; apply HF; rewrite EK; now left).
   rewrite EK at 1. rewrite <- EK. rewrite E1. cbn [negb]. rewrite K0.
   assert (E2 : forallb (fun k => N.of_nat (coord_size (key_bits k)) =? N.of_nat (coord_size c)) ks = true).
   { apply forallb_forall. intros k Hk. rewrite (KB k Hk). apply N.eqb_refl. }
@@ -433,20 +434,23 @@ Proof.
   destruct (1 <? nlen ks) eqn:E1n.
   - rewrite (map_res_ok _ rkh_spec).
     2:{ intros k Hk. assert (KO : key_ok k) by (rewrite Forall_forall in HK; now apply HK).
-        destruct (ecc_hash_len c ks k HS Hk) as [EQ _]. rewrite EQ. pose proof (KB k Hk) as B.
-        destruct k as [|c1 x y]; [discriminate|]. simpl in B. subst c1. rewrite raw_key_ecc by assumption. reflexivity. }
-    cbn [bind]. rewrite LN. unfold nlen at 1. rewrite map_length. fold (nlen ks). rewrite E1n.
+        destruct (ecc_hash_len c ks k HS Hk) as [EQ _]. rewrite EQ.
+        assert (B : is_ecc c k) by (rewrite Forall_forall in HF; now apply HF).
+        destruct k as [|c1 x y]; [contradiction|]. simpl in B. subst c1. rewrite raw_key_ecc by assumption. reflexivity. }
+    cbn [bind]. rewrite LN.
+    assert (E1m : (1 <? nlen (map rkh_spec ks)) = true) by (unfold nlen in *; now rewrite map_length).
+    rewrite E1m.
     assert (LC : length (concat (map rkh_spec ks)) = (hlen (halg_c c) * length ks)%nat).
     { rewrite (concat_len_k (hlen (halg_c c))); [now rewrite map_length|].
       intros h Hh. apply in_map_iff in Hh as (k & <- & Hk). apply (ecc_hash_len c ks k HS Hk). }
     destruct (concat (map rkh_spec ks)) as [|b0 tb] eqn:EC.
     { exfalso. simpl in LC. rewrite EK in LC. simpl in LC. destruct Hc as [-> | ->]; simpl in LC; lia. }
-    rewrite <- EC. unfold nlen. rewrite LC.
+    unfold nlen. rewrite LC. rewrite <- EC.
     assert (NZ : N.of_nat (length ks) <> 0) by (rewrite EK; simpl; lia).
     rewrite Nat2N.inj_mul.
     assert (RS : rot_spec_v21 ks = hash (halg_c c) (concat (map rkh_spec ks))).
     { rewrite EK. rewrite EK in E1n. destruct t as [|k1 t']; [unfold nlen in E1n; simpl in E1n; discriminate|].
-      unfold rot_spec_v21. destruct k0 as [|c0 x0 y0]; [discriminate|]. simpl in K0. subst c0.
+      unfold rot_spec_v21. destruct k0 as [|c0 x0 y0]; [contradiction|]. simpl in I0. subst c0.
       destruct Hc as [-> | ->]; reflexivity. }
     rewrite RS. destruct Hc as [-> | ->]; cbn [halg_c hlen N.eqb Pos.eqb].
     + change (N.of_nat 32) with 32. rewrite (proj1 (div_mul_cancel_nat _ NZ)). reflexivity.
@@ -457,7 +461,7 @@ Proof.
     assert (R0 : N.to_nat rot_id = 0%nat) by (rewrite L1 in HU; simpl in HU; lia).
     rewrite R0, L1. cbn [nth_error].
     assert (KO : key_ok k0) by (rewrite Forall_forall in HK; apply HK; rewrite EK; now left).
-    destruct k0 as [|c0 x0 y0]; [discriminate|]. simpl in K0. subst c0.
+    destruct k0 as [|c0 x0 y0]; [contradiction|]. simpl in I0. subst c0.
     rewrite raw_key_ecc by assumption. unfold key_halg, rot_spec_v21, rkh_spec. destruct Hc as [-> | ->]; reflexivity.
 Qed.
 
@@ -472,4 +476,343 @@ Proof.
   intros Hc HF HK HN HL. assert (HS : ecc_set c ks) by (now split).
   split; [now apply (rot_v21_plain c)|]. split; [intros; now apply (cb21_rkth_ok c)|].
   split; [intros; now apply (dc_ecc_ok c)|now apply (pfr_v21_ok c)].
+Qed.
+
+(* ====================================================================================== *)
+(* independence of the signer (used root index, certificates) -- for ALL key lists          *)
+(* ====================================================================================== *)
+Lemma map_res_in {A B} (f : A -> res B) l r a : map_res f l = Ok r -> In a l -> exists b, f a = Ok b.
+Proof.
+  revert r; induction l as [|x t IH]; intros r H Ha; [contradiction|].
+  cbn [map_res] in H. destruct (f x) as [b|] eqn:Ex; [|discriminate]. destruct (map_res f t) as [bs|] eqn:Et; [|discriminate].
+  destruct Ha as [->|Ha]; [now exists b|]. apply (IH bs eq_refl Ha).
+Qed.
+Lemma calc_ok_raw_ok k h : calc_key_hash k = Ok h -> exists p, raw_key k = Ok p.
+Proof.
+  destruct k as [n e|c x y]; intros H; [eexists; reflexivity|].
+  unfold calc_key_hash in H. destruct (to_bytes (coord_size c) y) as [yb|] eqn:Ey; [|discriminate].
+  cbn [bind] in H. destruct (to_bytes (coord_size c) x) as [xb|] eqn:Ex; [|discriminate].
+  unfold raw_key. rewrite Ex, Ey. eexists; reflexivity.
+Qed.
+Lemma rkht_from_keys_in ks hs k : rkht_from_keys ks = Ok hs -> In k ks -> exists p, raw_key k = Ok p.
+Proof.
+  intros H Hk. unfold rkht_from_keys in H. destruct ks as [|k0 t] eqn:EK; [contradiction|]. rewrite <- EK in *.
+  destruct (negb (forallb (same_class k0) ks)); [discriminate|]. destruct (key_halg k0); [|discriminate].
+  destruct (negb _); [discriminate|]. destruct (map_res calc_key_hash ks) as [hs'|] eqn:EM; [|discriminate].
+  destruct (map_res_in _ _ _ k EM Hk) as (h & Eh). apply (calc_ok_raw_ok k h Eh).
+Qed.
+
+Lemma cb21_rkth_general ca used ks isk fam : (N.to_nat used < length ks)%nat ->
+  cb21_rkth {| b_ca := ca; b_used := used; b_keys := ks; b_isk := isk; b_family := fam |}
+  = if ecc_only ks then bind (rkht_from_keys ks) rkth_v21 else Err 1.
+Proof.
+  intros HU. unfold cb21_rkth, rkr_calc. cbn [b_ca b_used b_keys]. destruct ks as [|k0 t] eqn:EK; [simpl in HU; lia|]. rewrite <- EK in *.
+  destruct (ecc_only ks); cbn [negb bind]; [|reflexivity].
+  destruct (rkht_from_keys ks) as [hs|] eqn:ER; cbn [bind]; [|reflexivity].
+  destruct (nth_error ks (N.to_nat used)) as [k|] eqn:EN; [|apply nth_error_None in EN; lia].
+  destruct (rkht_from_keys_in ks hs k ER (nth_error_In _ _ EN)) as (p & Ep). rewrite Ep. reflexivity.
+Qed.
+
+Lemma independent_of_signer_lemma :
+  (forall b b', b_keys b = b_keys b' -> (N.to_nat (b_used b) < length (b_keys b))%nat ->
+                (N.to_nat (b_used b') < length (b_keys b))%nat -> cb21_rkth b = cb21_rkth b')
+  /\ (forall b b', c1_rkh b = c1_rkh b' -> cb1_rkth b = cb1_rkth b' /\ cb1_fuses b = cb1_fuses b').
+Proof.
+  split.
+  - intros [ca u ks isk fam] [ca' u' ks' isk' fam'] E H1 H2. cbn [b_keys b_used] in *. subst ks'.
+    now rewrite !cb21_rkth_general.
+  - intros b b' E. unfold cb1_fuses, cb1_rkth. rewrite E. split; reflexivity.
+Qed.
+
+(* ====================================================================================== *)
+(* NXP raw keys: fixed-width coordinates, minimal RSA numbers, decode(encode) = id           *)
+(* ====================================================================================== *)
+Definition raw_ok (k : key) : Prop :=
+  match k with
+  | KRsa n e => (byte_len n = 256 \/ byte_len n = 384 \/ byte_len n = 512)%nat /\ (byte_len e = 3 \/ byte_len e = 4)%nat
+  | KEcc c x y => (c = 256 \/ c = 384 \/ c = 521) /\ on_curve c x y = true
+  end.
+
+Lemma curve_p_bound c : c = 256 \/ c = 384 \/ c = 521 -> curve_p c <= 2 ^ (8 * N.of_nat (coord_size c)).
+Proof. intros [-> | [-> | ->]]; vm_compute; discriminate. Qed.
+
+Lemma on_curve_key_ok c x y : c = 256 \/ c = 384 \/ c = 521 -> on_curve c x y = true -> key_ok (KEcc c x y).
+Proof.
+  intros Hc H. unfold on_curve in H. apply andb_true_iff in H as [H _]. apply andb_true_iff in H as [Hx Hy].
+  apply N.ltb_lt in Hx, Hy. pose proof (curve_p_bound c Hc). split; lia.
+Qed.
+
+Lemma be_dec_be_encf w v : v < 2 ^ (8 * N.of_nat w) -> be_dec (be_encf w v) = v.
+Proof. intros H. rewrite be_encf_eq. now apply be_dec_enc_small. Qed.
+
+Lemma raw_roundtrip_ecc c x y : raw_ok (KEcc c x y) -> bind (raw_key (KEcc c x y)) raw_decode = Ok (KEcc c x y).
+Proof.
+  intros [Hc HO]. pose proof (on_curve_key_ok c x y Hc HO) as [Hx Hy].
+  rewrite raw_key_ecc by (split; assumption). cbn [bind]. unfold raw_decode.
+  set (cs := coord_size c) in *.
+  assert (L : length (be_encf cs x ++ be_encf cs y) = (2 * cs)%nat) by (rewrite app_length, !be_encf_length; lia).
+  unfold nlen. rewrite L.
+  replace (2 * cs / 2)%nat with cs by (rewrite Nat.mul_comm, Nat.div_mul; lia).
+  rewrite firstn_app_len, skipn_app_len by (now rewrite be_encf_length).
+  rewrite !be_dec_be_encf by assumption.
+  destruct Hc as [-> | [-> | ->]]; subst cs; cbn [coord_size]; simpl N.of_nat; cbv iota beta; cbn [N.eqb Pos.eqb]; now rewrite HO.
+Qed.
+
+Lemma be_min_length v : length (be_min v) = byte_len v.
+Proof. apply be_encf_length. Qed.
+
+Lemma raw_roundtrip_rsa n e : raw_ok (KRsa n e) -> bind (raw_key (KRsa n e)) raw_decode = Ok (KRsa n e).
+Proof.
+  intros [Hn He]. cbn [raw_key bind]. unfold raw_decode.
+  assert (L : length (be_min n ++ be_min e) = (byte_len n + byte_len e)%nat) by (now rewrite app_length, !be_min_length).
+  unfold nlen. rewrite L.
+  assert (D : forall m, byte_len n = m -> firstn m (be_min n ++ be_min e) = be_min n /\ skipn m (be_min n ++ be_min e) = be_min e).
+  { intros m Hm. split; [apply firstn_app_len|apply skipn_app_len]; now rewrite be_min_length. }
+  destruct Hn as [Hn | [Hn | Hn]]; destruct He as [He | He]; rewrite Hn, He; cbn -[be_min firstn skipn be_dec];
+    match goal with |- context [firstn ?m _] => destruct (D m Hn) as [-> ->] end; now rewrite !be_dec_be_min.
+Qed.
+
+Lemma raw_key_roundtrip_lemma k : raw_ok k -> bind (raw_key k) raw_decode = Ok k.
+Proof. destruct k; [apply raw_roundtrip_rsa|apply raw_roundtrip_ecc]. Qed.
+(* P-256 base point is a valid key with this property; so is any 2048-bit modulus with e = 65537 *)
+Example raw_ok_nontrivial :
+  raw_ok (KEcc 256 0x6B17D1F2E12C4247F8BCE6E563A440F277037D812DEB33A0F4A13945D898C296 0x4FE342E2FE1A7F9B8EE7EB4A7C0F9E162BCE33576B315ECECBB6406837BF51F5)
+  /\ raw_ok (KRsa (2 ^ 2047 + 1) 65537).
+Proof. split; [split; [now left|vm_compute; reflexivity]|split; [left; vm_compute; reflexivity|left; vm_compute; reflexivity]]. Qed.
+
+Lemma leading_zero_safe_lemma :
+  (forall c x y, x < 2 ^ (8 * N.of_nat (coord_size c)) -> y < 2 ^ (8 * N.of_nat (coord_size c)) ->
+     exists r, raw_key (KEcc c x y) = Ok r /\ length r = (2 * coord_size c)%nat /\
+               be_dec (firstn (coord_size c) r) = x /\ be_dec (skipn (coord_size c) r) = y)
+  /\ (forall n e, exists r, raw_key (KRsa n e) = Ok r /\ r = be_min n ++ be_min e /\
+        be_dec (be_min n) = n /\ be_dec (be_min e) = e /\
+        (forall w, (w < byte_len n)%nat -> be_dec (be_encf w n) <> n) /\ (forall w, (w < byte_len e)%nat -> be_dec (be_encf w e) <> e)).
+Proof.
+  split.
+  - intros c x y Hx Hy. eexists. split; [apply raw_key_ecc; now split|].
+    split; [rewrite app_length, !be_encf_length; lia|].
+    rewrite firstn_app_len, skipn_app_len by (now rewrite be_encf_length). now rewrite !be_dec_be_encf.
+  - intros n e. eexists. split; [reflexivity|]. split; [reflexivity|].
+    split; [apply be_dec_be_min|]. split; [apply be_dec_be_min|]. split; intros w; apply be_min_minimal.
+Qed.
+
+(* ====================================================================================== *)
+(* independence of the way a key is supplied (cert block v1 / v2.1 RoT types)               *)
+(* ====================================================================================== *)
+Definition supply_ok (p : key * supply) : Prop :=
+  match snd p with SPlain => True | SCaBytes => True | SRaw => raw_ok (fst p) | SCaObj => False end.
+
+Lemma convert_key_ok p : supply_ok p -> exists ca, convert_key p = Ok (fst p, ca).
+Proof.
+  destruct p as [k s]. unfold supply_ok, convert_key. cbn [fst snd]. destruct s; intros H; try contradiction.
+  - now exists false.
+  - exists false. pose proof (raw_key_roundtrip_lemma k H) as E. destruct (raw_key k) as [d|]; [|discriminate]. cbn [bind] in *. now rewrite E.
+  - now exists true.
+Qed.
+Lemma convert_all_ok inp : Forall supply_ok inp -> exists r, convert_all inp = Ok r /\ map fst r = map fst inp.
+Proof.
+  induction inp as [|p t IH]; intros H; [exists []; split; reflexivity|].
+  inversion H as [|? ? Hp Ht]; subst. destruct (IH Ht) as (r & Er & Em). destruct (convert_key_ok p Hp) as (ca & Ec).
+  exists ((fst p, ca) :: r). unfold convert_all in *. cbn [map_res]. rewrite Ec, Er. split; [reflexivity|]. cbn [map fst]. now rewrite Em.
+Qed.
+
+Lemma independent_of_supply_lemma inp inp' :
+  Forall supply_ok inp -> Forall supply_ok inp' -> map fst inp = map fst inp' ->
+  rot_v1 inp = rot_v1 inp' /\ rot_v1_export inp = rot_v1_export inp' /\ rot_v21 inp = rot_v21 inp' /\ rot_v21_export inp = rot_v21_export inp'.
+Proof.
+  intros H H' E. destruct (convert_all_ok inp H) as (r & Er & Em). destruct (convert_all_ok inp' H') as (r' & Er' & Em').
+  unfold rot_v1, rot_v1_export, rot_v21, rot_v21_export. rewrite Er, Er'. cbn [bind]. rewrite Em, Em', E. repeat split; reflexivity.
+Qed.
+Example supply_ok_nontrivial : Forall supply_ok [(KRsa (2 ^ 2047 + 1) 65537, SRaw); (KRsa 7 3, SCaBytes); (KRsa 7 3, SPlain)].
+Proof. repeat constructor; apply raw_ok_nontrivial. Qed.
+
+(* ====================================================================================== *)
+(* AHAB SRK tables: the hash depends on the CA attribute the key picked up on the way in     *)
+(* ====================================================================================== *)
+Definition p256_g : key :=
+  KEcc 256 0x6B17D1F2E12C4247F8BCE6E563A440F277037D812DEB33A0F4A13945D898C296 0x4FE342E2FE1A7F9B8EE7EB4A7C0F9E162BCE33576B315ECECBB6406837BF51F5.
+
+Lemma ahab_supply_dependence_lemma :
+  exists ks h1 h2,
+    length ks = 4%nat /\
+    rot_ahab ahab1 (map (fun k => (k, SPlain)) ks) = Ok h1 /\
+    rot_ahab ahab1 (map (fun k => (k, SCaBytes)) ks) = Ok h2 /\ h1 <> h2.
+Proof.
+  exists [p256_g; p256_g; p256_g; p256_g]. eexists. eexists. split; [reflexivity|].
+  split; [vm_compute; reflexivity|]. split; [vm_compute; reflexivity|]. discriminate.
+Qed.
+Lemma ahab2_supply_dependence_lemma :
+  exists ks h1 h2,
+    rot_ahab ahab2 (map (fun k => (k, SPlain)) ks) = Ok h1 /\
+    rot_ahab ahab2 (map (fun k => (k, SCaBytes)) ks) = Ok h2 /\ h1 <> h2.
+Proof.
+  exists [p256_g; p256_g; p256_g; p256_g]. eexists. eexists.
+  split; [vm_compute; reflexivity|]. split; [vm_compute; reflexivity|]. discriminate.
+Qed.
+
+(* outside the known class (no CA certificate among the inputs) the AHAB paths depend on the keys only *)
+Definition no_ca (p : key * supply) : Prop := match snd p with SPlain => True | SRaw => raw_ok (fst p) | _ => False end.
+Lemma convert_all_no_ca inp : Forall no_ca inp -> convert_all inp = Ok (map (fun k => (k, false)) (map fst inp)).
+Proof.
+  induction inp as [|[k s] t IH]; intros H; [reflexivity|]. inversion H as [|? ? Hp Ht]; subst.
+  unfold convert_all in *. cbn [map_res map fst]. rewrite (IH Ht).
+  unfold no_ca in Hp. cbn [fst snd] in Hp. destruct s; try contradiction.
+  - reflexivity.
+  - unfold convert_key. cbn [fst snd]. pose proof (raw_key_roundtrip_lemma k Hp) as E. destruct (raw_key k) as [d|]; [|discriminate].
+    cbn [bind] in *. rewrite E. reflexivity.
+Qed.
+Lemma ahab_except_known_lemma c inp inp' :
+  Forall no_ca inp -> Forall no_ca inp' -> map fst inp = map fst inp' ->
+  rot_ahab c inp = rot_ahab c inp' /\ rot_ahab_export c inp = rot_ahab_export c inp'.
+Proof.
+  intros H H' E. unfold rot_ahab, rot_ahab_export. rewrite (convert_all_no_ca _ H), (convert_all_no_ca _ H'), E. split; reflexivity.
+Qed.
+
+(* ====================================================================================== *)
+(* HAB: entry layout with the constants of the source resolved                              *)
+(* ====================================================================================== *)
+Lemma hab_fuses_spec_lemma :
+  (forall n e ca, hab_item (KRsa n e, ca) =
+     Ok ([225] ++ be16 (12 + nlen (be_min n) + nlen (be_min e)) ++ [33] ++ [0; 0; 0; if ca then 128 else 0]
+         ++ be16 (nlen (be_min n)) ++ be16 (nlen (be_min e)) ++ be_min n ++ be_min e))
+  /\ (forall ks items, map_res hab_item ks = Ok items -> hab_fuses ks = Ok (sha256 (concat (map sha256 items))))
+  /\ (forall ks ks', map fst ks = map fst ks' -> map snd ks = map snd ks' -> hab_fuses ks = hab_fuses ks').
+Proof.
+  split; [intros; reflexivity|]. split.
+  - intros ks items E. unfold hab_fuses. rewrite E. reflexivity.
+  - intros ks ks' E1 E2. assert (ks = ks').
+    { revert ks' E1 E2. induction ks as [|[k c] t IH]; intros [|[k' c'] t'] E1 E2; try discriminate; [reflexivity|].
+      cbn in E1, E2. inversion E1; inversion E2; subst. f_equal. now apply IH. }
+    now subst.
+Qed.
+
+(* ====================================================================================== *)
+(* root key record flags                                                                    *)
+(* ====================================================================================== *)
+Definition rkr_flags (ca : bool) (used n nib : N) : N :=
+  N.lor (N.lor (N.lor (if ca then 2 ^ 31 else 0) (N.shiftl used 8)) (N.shiftl n 4)) nib.
+Definition range16 : list N := [0; 1; 2; 3; 4; 5; 6; 7; 8; 9; 10; 11; 12; 13; 14; 15].
+Definition flags_check : bool :=
+  forallb (fun ca => forallb (fun used => forallb (fun n => forallb (fun nib =>
+    let f := rkr_flags ca used n nib in
+    Bool.eqb (N.testbit f 31) ca && (N.shiftr (N.land f 3840) 8 =? used) && (N.shiftr (N.land f 240) 4 =? n) && (N.land f 15 =? nib))
+    range16) range16) range16) [true; false].
+Lemma flags_check_true : flags_check = true.
+Proof. vm_compute. reflexivity. Qed.
+Lemma in_range16 x : x < 16 -> In x range16.
+Proof.
+  intros H. assert (D : x = 0 \/ x = 1 \/ x = 2 \/ x = 3 \/ x = 4 \/ x = 5 \/ x = 6 \/ x = 7 \/ x = 8 \/ x = 9 \/ x = 10 \/ x = 11
+                        \/ x = 12 \/ x = 13 \/ x = 14 \/ x = 15) by lia.
+  unfold range16. repeat (destruct D as [->|D]; [simpl; tauto|]). subst. simpl; tauto.
+Qed.
+Lemma flags_decode ca used n nib : used < 16 -> n < 16 -> nib < 16 ->
+  let f := rkr_flags ca used n nib in
+  N.testbit f 31 = ca /\ N.shiftr (N.land f 3840) 8 = used /\ N.shiftr (N.land f 240) 4 = n /\ N.land f 15 = nib.
+Proof.
+  intros Hu Hn Hb. pose proof flags_check_true as C. unfold flags_check in C.
+  rewrite forallb_forall in C. specialize (C ca (ltac:(destruct ca; simpl; tauto))).
+  rewrite forallb_forall in C. specialize (C used (in_range16 _ Hu)).
+  rewrite forallb_forall in C. specialize (C n (in_range16 _ Hn)).
+  rewrite forallb_forall in C. specialize (C nib (in_range16 _ Hb)).
+  cbv zeta in *. apply andb_true_iff in C as [C C4]. apply andb_true_iff in C as [C C3]. apply andb_true_iff in C as [C1 C2].
+  apply N.eqb_eq in C2, C3, C4. apply Bool.eqb_prop in C1. auto.
+Qed.
+
+Lemma flags_describe_lemma c ca used ks :
+  ecc_set c ks -> Forall key_ok ks -> (length ks <= 4)%nat -> (N.to_nat used < length ks)%nat ->
+  exists f hs pub k,
+    rkr_calc ca used ks = Ok (f, hs, pub) /\ nth_error ks (N.to_nat used) = Some k /\ raw_key k = Ok pub /\
+    N.testbit f 31 = ca /\ N.shiftr (N.land f 3840) 8 = used /\ N.shiftr (N.land f 240) 4 = nlen ks /\
+    N.land f 15 = (if c =? 256 then 1 else 2).
+Proof.
+  intros HS HK HL HU. destruct (rkr_calc_ok c ca used ks HS HK HL HU) as (k & pub & EN & ER & E).
+  eexists. exists (map rkh_spec ks), pub, k. split; [exact E|]. split; [exact EN|]. split; [exact ER|].
+  assert (Hu : used < 16) by lia. assert (Hn : nlen ks < 16) by (unfold nlen; lia).
+  assert (Hb : curve_nibble c < 16 /\ curve_nibble c = (if c =? 256 then 1 else 2)) by (destruct HS as [[-> | ->] _]; split; vm_compute; reflexivity).
+  destruct Hb as [Hb Eb]. rewrite <- Eb. apply (flags_decode ca used (nlen ks) (curve_nibble c) Hu Hn Hb).
+Qed.
+
+(* ====================================================================================== *)
+(* database facts (regenerated on every run)                                                *)
+(* ====================================================================================== *)
+Definition fam_ok (row : list N * (N * (N * (N * N)))) : bool :=
+  let '(_, (rt, (cls, (lim, al)))) := row in
+  existsb (N.eqb rt) [1; 21; 3; 4; 5; 6] && (if rt =? 6 then cls =? 0 else (cls =? rt) && existsb (N.eqb rt) g_rot_classes)
+  && (al mod 4 =? 0) && negb (al =? 0).
+Definition pfr_ok (row : list N * (N * N)) : bool :=
+  let '(_, (w, v)) := row in ((w =? 0) && (v =? 0)) || ((v =? 1) && (w =? 256)) || ((v =? 21) && (w =? 384)).
+Lemma db_rot_types_known_lemma : Forall (fun r => fam_ok r = true) g_families /\ Forall (fun r => pfr_ok r = true) g_pfr.
+Proof. split; apply Forall_forall; apply forallb_forall; vm_compute; reflexivity. Qed.
+
+(* with a family the user data length is a multiple of 4: the offset-less heuristic of IskCertificate.parse cannot fire *)
+Lemma family_data_safe_lemma row i :
+  In row g_families -> isk_check (Some (fst (snd (snd (snd row))), snd (snd (snd (snd row))))) i = Ok tt ->
+  (key_bits (i_key i) = 256 \/ key_bits (i_key i) = 384) ->
+  N.land (isk_sig_offset i) g_isk_heur_mask <> g_isk_heur_magic.
+Proof.
+  intros Hin Hc Hk. destruct db_rot_types_known_lemma as [HF _]. rewrite Forall_forall in HF. specialize (HF row Hin).
+  destruct row as [nm [rt [cls [lim al]]]]. cbn [fst snd] in *. unfold fam_ok in HF.
+  apply andb_true_iff in HF as [HF Hnz]. apply andb_true_iff in HF as [_ Hal]. apply N.eqb_eq in Hal. apply negb_true_iff, N.eqb_neq in Hnz.
+  unfold isk_check in Hc. destruct (i_key i) as [|c x y] eqn:EK; [discriminate|].
+  destruct (lim <? nlen (i_user_data i)); [discriminate|]. destruct (nlen (i_user_data i) mod al =? 0) eqn:EM; [|discriminate].
+  apply N.eqb_eq in EM. unfold isk_sig_offset. rewrite EK. cbn [key_bits] in *.
+  change g_isk_heur_mask with (N.ones 16). rewrite N.land_ones. change g_isk_heur_magic with 19779. change (2 ^ 16) with 65536.
+  set (L := nlen (i_user_data i)) in *.
+  assert (L4 : L mod 4 = 0).
+  { assert (al = 4 * (al / 4)) by (pose proof (N.div_mod al 4); lia). assert (L = al * (L / al)) by (pose proof (N.div_mod L al Hnz); lia).
+    rewrite H0, H, <- N.mul_assoc, N.mul_comm. apply N.mod_mul. lia. }
+  destruct Hk as [-> | ->]; cbn [coord_size]; simpl N.of_nat; lia.
+Qed.
+
+(* without a family limit the heuristic does fire: a valid block that does not survive export/parse *)
+Definition heur_block : cb21_in :=
+  {| b_ca := false; b_used := 0; b_keys := [p256_g; p256_g]; b_family := None;
+     b_isk := Some {| i_constraints := 0; i_key := p256_g; i_user_data := repeat 165 (N.to_nat 19703) |} |}.
+Lemma heuristic_refuted_lemma :
+  N.land (12 + 19703 + 64) g_isk_heur_mask = g_isk_heur_magic /\
+  match cb21_export (fun _ => repeat 1 64%nat) heur_block with
+  | Ok (ex, _) => match cb21_parse ex with Ok _ => false | Err _ => true end
+  | Err _ => false
+  end = true.
+Proof. split; vm_compute; reflexivity. Qed.
+
+(* ====================================================================================== *)
+(* what the ISK signature covers                                                            *)
+(* ====================================================================================== *)
+Lemma isk_signed_range_lemma sign b ex msgs :
+  cb21_export sign b = Ok (ex, msgs) ->
+  match (if b_ca b then None else b_isk b) with
+  | None => msgs = []
+  | Some i =>
+      exists f hs rp k pub hdr,
+        rkr_calc (b_ca b) (b_used b) (b_keys b) = Ok (f, hs, rp) /\
+        nth_error (b_keys b) (N.to_nat (b_used b)) = Some k /\ raw_key k = Ok rp /\
+        raw_key (i_key i) = Ok pub /\
+        let msg := (le32 f ++ export_v21 hs ++ rp)
+                   ++ (le32 (isk_sig_offset i) ++ le32 (i_constraints i) ++ le32 (isk_flags i)) ++ pub ++ i_user_data i in
+        msgs = [msg] /\ length hdr = 12%nat /\ ex = hdr ++ msg ++ sign msg
+  end.
+Proof.
+  unfold cb21_export. destruct (if b_ca b then None else b_isk b) as [i|] eqn:EI.
+  - destruct (isk_check (b_family b) i); [|discriminate]. cbn [bind].
+    destruct (rkr_calc (b_ca b) (b_used b) (b_keys b)) as [[[f hs] rp]|] eqn:ER; [|discriminate]. cbn [bind].
+    destruct (raw_key (i_key i)) as [pub|] eqn:EP; [|discriminate]. cbn [bind].
+    unfold isk_tbs, isk_head, rkr_bytes.
+    match goal with |- context [sign ?m] => set (msg := m) end.
+    destruct (sign msg) as [|s0 st] eqn:ES; [discriminate|].
+    intros H. injection H as Hex Hm.
+    assert (exists k, nth_error (b_keys b) (N.to_nat (b_used b)) = Some k /\ raw_key k = Ok rp) as (k & EN & EK).
+    { unfold rkr_calc in ER. destruct (b_keys b) as [|k0 t]; [discriminate|]. destruct (negb _); [discriminate|].
+      destruct (rkht_from_keys (k0 :: t)); [|discriminate]. cbn [bind] in ER.
+      destruct (nth_error (k0 :: t) (N.to_nat (b_used b))) as [k|]; [|discriminate]. exists k. split; [reflexivity|].
+      destruct (raw_key k); [|discriminate]. cbn [bind] in ER. injection ER as _ _ <-. reflexivity. }
+    exists f, hs, rp, k, pub.
+    exists (g_cb21_magic ++ le16 (snd g_cb21_version) ++ le16 (fst g_cb21_version)
+            ++ le32 (g_cb21_hdr_size + nlen (le32 f ++ export_v21 hs ++ rp)
+                     + nlen ((le32 (isk_sig_offset i) ++ le32 (i_constraints i) ++ le32 (isk_flags i)) ++ pub ++ i_user_data i ++ s0 :: st))).
+    split; [reflexivity|]. split; [exact EN|]. split; [exact EK|]. split; [reflexivity|].
+    cbv zeta. fold msg. split; [now rewrite <- Hm|]. split.
+    + unfold le16, le32. rewrite !app_length, !le_enc_length. reflexivity.
+    + rewrite ES, <- Hex. unfold msg. rewrite <- !app_assoc. reflexivity.
+  - cbn [bind]. destruct (rkr_calc _ _ _); [|discriminate]. cbn [bind]. intros H. injection H as _ <-. reflexivity.
 Qed.
